@@ -318,3 +318,63 @@ def c14(ctx):
     cov["n_cause_classes"] = len(cov["cause_classes"])
     cov["classes"] = {k: v for k, v in cov["classes"].items() if not k.startswith("cause:")}
     return P.finish(ctx, "exploration", cov, assumptions, mn)
+
+
+# ---------------------------------------------------------------- C05
+harness_job("C05_roundtrip")
+std_replayer("C05", "C05_roundtrip")
+
+
+@P.check("C05")
+def c05(ctx):
+    """round trip: generate -> verify under every (signer, verifier) provider pair, content read back in the checker callback"""
+    rule = ("rapidcheck: (private key of every type/size [thorough: + freshly generated keys] x every admissible alg x alg given explicitly or as key attribute) x signing provider x "
+            "verifying provider x recursive JSON trees for headers and claims (depth <=6, non-BMP and escaped characters, integers to +-2^63, reals, empty containers, strings to "
+            "8 KiB, names colliding with alg/typ/iat/nbf/exp) set through whole-object JSON or typed setters x iat/nbf/exp options x clock. Oracle: generate != NULL; the "
+            "independent verifier accepts (fixed-width r||s, PSS); segments are canonical unpadded base64url; a checker with the public (or same symmetric) key returns 0 under the "
+            "verifying provider; header and claims read in its callback are json_equal to builder content + {alg, typ default, iat, nbf, exp}. A volume phase signs hundreds of "
+            "ES256/ES384/ES512 tokens per provider to hit short r or s. Non-trivial = ECDSA signature with a leading zero byte in r or s, tree depth >=3 / non-ASCII / |int|>2^53, "
+            "or a cross-provider pair; distinct by hash of the token.")
+    assumptions = ["ES256K / secp256k1 only openssl->openssl (GnuTLS lacks it)", "user-supplied exp/nbf claims are not generated (the default checker would enforce them)",
+                   "randomized signatures: the replay re-signs up to 20 times"]
+    cov, mn = P.generic_harness_check(ctx, "C05_roundtrip", rule, assumptions, min_nontrivial={"quick": 2000, "thorough": 20000})
+    return P.finish(ctx, "exploration", cov, assumptions, mn)
+
+
+# ---------------------------------------------------------------- C08
+harness_job("C08_import")
+std_replayer("C08", "C08_import")
+
+
+@P.check("C08")
+def c08(ctx):
+    """JWK import: generated keys x rendering variations, compared component-wise with the original key"""
+    rule = ("rapidcheck: key (fixture RSA 2048/2049/2056/3072/4096, freshly generated P-256/P-384/P-521/secp256k1/Ed25519/Ed448 [thorough: + fresh RSA], oct of 1-512 bytes) x "
+            "private/public form x rendering (integers zero-padded by 0-3 bytes, EC coordinates fixed-width or stripped, OKP private with/without x, alg from 20 strings incl. "
+            "unknown / lower-case / 'P'-prefixed, kid incl. long and non-ASCII, use in {sig, enc, other, SIG}, key_ops subsets incl. unknown ops and non-strings, non-array) x "
+            "foreign members (members of other key types, unknown names with any JSON value) x bare or inside a set. Oracle: item error-free; kty, key_bits, curve, is_private, alg, "
+            "kid, use, key_ops equal an independent mapping of what the JWK states; oct bytes == strict decode of k; the item's PEM parsed by OpenSSL has the same "
+            "n,e,d,p,q,dp,dq,qi / x,y,d,curve / raw public+private as the original key (and EVP_PKEY_eq when types match); the same JWK without the foreign members imports "
+            "identically. Non-trivial = zero-padded or stripped encodings, foreign members present, or private form; distinct by hash of the JWK text.")
+    assumptions = ["own JWK renderer in vkeys.h; OpenSSL parses the PEM and extracts components", "foreign members never name a member that the key's own type uses"]
+    cov, mn = P.generic_harness_check(ctx, "C08_import", rule, assumptions, min_nontrivial={"quick": 3000, "thorough": 50000})
+    return P.finish(ctx, "exploration", cov, assumptions, mn)
+
+
+# ---------------------------------------------------------------- C09
+harness_job("C09_floor", extra_link="")
+std_replayer("C09", "C09_floor", extra_link="")
+
+
+@P.check("C09")
+def c09(ctx):
+    """key-strength floor: exhaustive grid over key sizes/curves x algs x generate/verify x provider"""
+    rule = ("exhaustive grid: oct keys of every length 1-160 bytes x HS256/384/512; RSA moduli 512, 1024, 1536, 2040, 2047, 2048, 2049, 2056, 3072, 4096 (thorough: + fresh "
+            "1024/2047/2048) x RS*/PS*; EC curves P-256, P-384, P-521, secp256k1, secp224r1, brainpoolP256r1, brainpoolP384r1 x ES256/ES256K/ES384/ES512; Ed25519, Ed448 x EdDSA; "
+            "cross-family probes; each for jwt_builder_generate and for jwt_checker_verify of a token the reference signer signed validly with that very key; both providers. "
+            "Oracle: below the floor => NULL / non-zero with error flag and message; at or above => generate succeeds, the token verifies and the reference verifier accepts "
+            "(GnuTLS: asserted for the curves it supports). Non-trivial = cell within one step of a threshold (31/32/33, 47/48/49, 63/64/65 bytes; 2040-2056 bits; every EC/OKP cell); "
+            "cells are distinct by construction.")
+    assumptions = ["the statement constrains EC size only: brainpoolP256r1 may sign ES256 under OpenSSL", "a key the importer refuses counts as refused"]
+    cov, mn = P.generic_harness_check(ctx, "C09_floor", rule, assumptions, extra_link="", exhaustive=True, min_nontrivial={"quick": 200, "thorough": 200})
+    return P.finish(ctx, "exploration", cov, assumptions, mn)
